@@ -153,7 +153,7 @@ func runProc(timeout time.Duration, env []string, bin string, args ...string) pr
 }
 
 // genBatch asks the plain build for the specs and reference tables of batch bn.
-func (sp *simProc) genBatch(classified string, seed uint64, tier string, bn int, out string) {
+func (sp *simProc) genBatch(classified string, seed uint64, tier string, bn int, out string) (failure string) {
 	from, to := batchRange(bn)
 	sweep := bn%16 == 7
 	if sweep {
@@ -183,8 +183,17 @@ func (sp *simProc) genBatch(classified string, seed uint64, tier string, bn int,
 	}
 	po := runProc(5*time.Minute, goEnv(""), sp.b.SimPlain, args...)
 	if po.err != nil {
-		fail2("reference generator failed on batch %d: %v\n%s", bn, po.err, tail(po.stderr, 4000))
+		return fmt.Sprintf("reference generator failed on batch %d: %v\n%s", bn, po.err, tail(po.stderr, 4000))
 	}
+	return ""
+}
+
+// headTail keeps the first and the last n/2 bytes of s.
+func headTail(s string, n int) string {
+	if len(s) <= n {
+		return s
+	}
+	return s[:n/2] + "\n...\n" + s[len(s)-n/2:]
 }
 
 func tail(s string, n int) string {
@@ -300,7 +309,7 @@ func writeBatch(path string, b *Batch) {
 
 // refReverse evaluates the cases of file `in` in reverse order in a fresh
 // uninstrumented process.
-func (sp *simProc) refReverse(in, out string) {
+func (sp *simProc) refReverse(in, out string) (failure string) {
 	env := goEnv("")
 	if sp.b.Instr != nil && sp.b.Instr.Seams["gc_lifetime"] > 0 {
 		// collect as often as possible in this process: lifetime-dependent state
@@ -309,8 +318,9 @@ func (sp *simProc) refReverse(in, out string) {
 	}
 	po := runProc(5*time.Minute, env, sp.b.SimPlain, "ref", "-reverse", "-in", in, "-out", out)
 	if po.err != nil {
-		fail2("reverse-order reference evaluator failed: %v\n%s", po.err, tail(po.stderr, 4000))
+		return fmt.Sprintf("reverse-order reference evaluator failed: %v\n%s", po.err, tail(po.stderr, 4000))
 	}
+	return ""
 }
 
 func ecoOfOp(c *Case, op *Op) string {
@@ -602,11 +612,18 @@ func checkIn(cfg checkCfg, scratch string, t0 time.Time) int {
 	simStart := time.Now()
 	var wg sync.WaitGroup
 	var failMu sync.Mutex
-	var failMsg string
+	var failMsg, softFail string
 	setFail := func(f string, a ...any) {
 		failMu.Lock()
 		if failMsg == "" {
 			failMsg = fmt.Sprintf(f, a...)
+		}
+		failMu.Unlock()
+	}
+	setSoftFail := func(f string, a ...any) {
+		failMu.Lock()
+		if softFail == "" {
+			softFail = fmt.Sprintf(f, a...)
 		}
 		failMu.Unlock()
 	}
@@ -634,27 +651,39 @@ func checkIn(cfg checkCfg, scratch string, t0 time.Time) int {
 					return
 				}
 				failMu.Lock()
-				bad := failMsg != ""
+				bad := failMsg != "" || softFail != ""
 				failMu.Unlock()
 				if bad {
 					return
 				}
 				in := filepath.Join(sp.workdir, fmt.Sprintf("b%d.json", bn))
 				out := filepath.Join(sp.workdir, fmt.Sprintf("r%d.json", bn))
-				sp.genBatch(classified, cfg.seed, cfg.tier, bn, in)
+				if msg := sp.genBatch(classified, cfg.seed, cfg.tier, bn, in); msg != "" {
+					// the uninstrumented reference process died (a crash of the
+					// library itself, e.g. a fatal "concurrent map writes" in a
+					// goroutine it started): undecidable on its own, but it does
+					// not take back what the simulator already found
+					setSoftFail("%s", msg)
+					return
+				}
 				bt := readBatch(in)
 				{
 					rout := filepath.Join(sp.workdir, fmt.Sprintf("rb%d.json", bn))
-					sp.refReverse(in, rout)
-					rv := readBatch(rout)
-					os.Remove(rout)
-					hv := compareRefs(bt, rv)
-					ag.mu.Lock()
-					ag.refCompared += len(bt.Cases)
-					for _, v := range hv {
-						ag.addViolation(v)
+					if msg := sp.refReverse(in, rout); msg != "" {
+						// as for the forward generator: undecidable on its own, but
+						// the batch is still simulated
+						setSoftFail("%s", msg)
+					} else {
+						rv := readBatch(rout)
+						os.Remove(rout)
+						hv := compareRefs(bt, rv)
+						ag.mu.Lock()
+						ag.refCompared += len(bt.Cases)
+						for _, v := range hv {
+							ag.addViolation(v)
+						}
+						ag.mu.Unlock()
 					}
-					ag.mu.Unlock()
 				}
 				br, po := sp.simBatch(in, out, false, false, 1)
 				if br == nil {
@@ -698,6 +727,12 @@ func checkIn(cfg checkCfg, scratch string, t0 time.Time) int {
 	wg.Wait()
 	if failMsg != "" {
 		fail2("%s", failMsg)
+	}
+	if softFail != "" {
+		if len(ag.violations) == 0 {
+			fail2("%s", softFail)
+		}
+		fmt.Println("vsim: note:", oneLine(softFail, 400))
 	}
 	simWall := time.Since(simStart).Seconds()
 	fmt.Printf("vsim: simulated %d runs in %d batches (%d ops, %d steps, %d context switches, %d same-object preemptions) in %.1fs wall on %d workers\n",
@@ -798,7 +833,7 @@ func checkIn(cfg checkCfg, scratch string, t0 time.Time) int {
 	}
 
 	if len(ag.harnessRaces) > 0 {
-		fail2("the race detector reported %d race(s) with no library frame (harness fault, not a violation):\n%s", len(ag.harnessRaces), tail(ag.harnessRaces[0], 3000))
+		fail2("the race detector reported %d race(s) with no library frame (harness fault, not a violation):\n%s", len(ag.harnessRaces), headTail(ag.harnessRaces[0], 3000))
 	}
 
 	fid := <-fidCh
@@ -854,6 +889,9 @@ func checkIn(cfg checkCfg, scratch string, t0 time.Time) int {
 		if kf := known.match(v); kf != nil {
 			fmt.Printf("KNOWN-FINDING: property=%s %s\n", propertyID, kf.What)
 			continue
+		}
+		if (v.Class == "deadlock" || v.Class == "no-progress") && len(b.Instr.Unseamed) > 0 {
+			fail2("a task stopped making progress (%s: %s), but the library uses constructs whose wake-ups the simulator does not control (%v): the stall may be the simulator's, not the library's - cannot decide", v.Class, oneLine(v.Detail, 200), b.Instr.Unseamed)
 		}
 		if v.Class == "no-progress" && v.Engine == "sim" && sequentialAlsoStalls(sp, v) {
 			fail2("an operation exceeds the per-operation step budget even when the tasks run one after the other without preemption (%s); the budget is too small for this tree - a harness limit, not a progress violation", oneLine(v.Detail, 200))
